@@ -6,7 +6,6 @@ use cairo_lang_casm::{casm, casm_extend, cell_ref};
 use cairo_lang_sierra::extensions::lib_func::SignatureAndTypeConcreteLibfunc;
 use cairo_lang_sierra::extensions::mem::MemConcreteLibfunc;
 use cairo_lang_sierra::ids::ConcreteTypeId;
-use cairo_lang_utils::casts::IntoOrPanic;
 use cairo_lang_utils::extract_matches;
 use itertools::{repeat_n, zip_eq};
 
@@ -154,11 +153,13 @@ fn build_alloc_local(
         allocation_size as usize,
     )?;
     builder.environment.frame_state = frame_state;
-    let slot: i16 = slot.into_or_panic();
+    // The local is addressed by `fp` offsets.
+    let slot: i16 = slot.try_into().map_err(|_| InvocationError::IntegerOverflow)?;
+    let end = slot.checked_add(allocation_size).ok_or(InvocationError::IntegerOverflow)?;
     Ok(builder.build_only_reference_changes(
         [ReferenceExpression {
-            cells: (0..allocation_size)
-                .map(|i| CellExpression::Deref(cell_ref!([fp + (slot + i)])))
+            cells: (slot..end)
+                .map(|offset| CellExpression::Deref(cell_ref!([fp + offset])))
                 .collect(),
         }]
         .into_iter(),
